@@ -426,6 +426,35 @@ func runC21(c *Ctx) {
 }
 
 func runC23(c *Ctx) {
+	// read admission: a source read is issued exactly when the transfer is active, the
+	// chunk starts inside the staging window and inside the requested range, and the
+	// source port can send
+	if f := c.fn("read-window", "mem/datamover", "dataTransferMW", "readFromSrc"); f != nil {
+		t := ExtractTable(c.P, f, TableConfig{Domain: []int{0, 1, 2}, MaxRows: 60000})
+		roles := []Role{
+			{Name: "active", IsBool: true, Match: func(a *Atom) bool { return strings.HasSuffix(a.Key, ".Active") }},
+			{Name: "addr", Match: func(a *Atom) bool { return strings.HasPrefix(a.Key, "alignAddress(") }},
+			{Name: "src", Match: func(a *Atom) bool { return strings.HasSuffix(a.Key, ".SrcAddress") }},
+			{Name: "off", Match: func(a *Atom) bool { return strings.HasSuffix(a.Key, ".Buffer.Offset") }},
+			{Name: "buf", Match: func(a *Atom) bool { return strings.HasSuffix(a.Key, ".BufferSize") }},
+			{Name: "size", Match: func(a *Atom) bool { return strings.HasSuffix(a.Key, ".ByteSize") }},
+			{Name: "can", IsBool: true, Match: func(a *Atom) bool { return strings.HasSuffix(a.Key, ".CanSend()") }},
+		}
+		CheckTable(c, "read-window", "mem/datamover.dataTransferMW.readFromSrc", c.P.Decl(f).Pos(), t, roles, []int{0, 1, 2},
+			func(v RoleVals) bool { return v["addr"] >= v["src"] && v["buf"] >= 1 },
+			func(v RoleVals, r *Row) (bool, string) {
+				sends := r.Calls(func(e *Effect) bool { return e.Callee != nil && e.Callee.Name() == "Send" })
+				want := v.B("active") && (v["addr"]-v["src"]) < (v["off"]+v["buf"]) && v["addr"] < v["src"]+v["size"] && v.B("can")
+				if want && len(sends) != 1 {
+					return false, "a chunk that starts inside the staging window and inside the requested range must be read (when the source port can send): refusing it because its tail does not fit stalls the transfer for good when the buffer is not a whole number of source chunks — the move is never acknowledged"
+				}
+				if !want && len(sends) != 0 {
+					return false, "a read is issued although the transfer is inactive, the chunk starts beyond the staging window or the requested range, or the port cannot send"
+				}
+				return true, ""
+			})
+	}
+
 	p := c.P
 	dom := []int{0, 1, 2}
 	ctF := c.field("anchors", "mem/datamover", "State", "CurrentTransaction")
